@@ -1,9 +1,12 @@
 """C05 — the computed action reflects exactly the matched rules, in priority order."""
 from itertools import product
 
+THOROUGH_CONFIGS = ['dot', 'router']
+
+
 from riolib.core import MissingAnchor, span_line
 from riolib.prov import Prov, show, mentions, mentions_field, walk, resolve_captures
-from riolib.sym import Sym, for_loops, path_assignment, eval_bool
+from riolib.sym import Sym, for_loops, path_assignment, eval_bool, consistent_with
 from .c01 import option_bool_presence_tests
 
 MANIFEST = {
@@ -79,6 +82,8 @@ def r05_1(ctx):
             assign, other = path_assignment(p, canon)
             eff = any(effect_pred(e) for e in p.events)
             for full in consistent_assignments(assign, ["E", "X", "C"]):
+                if not consistent_with(other, full, canon):
+                    continue
                 rows += 1
                 if eff != admits(full):
                     bad.append("E=%d X=%d C=%d -> %s (reference %s)" % (full["E"], full["X"], full["C"], "applied" if eff else "skipped", "applied" if admits(full) else "skipped"))
